@@ -56,6 +56,13 @@ def aim(case):
             case['mutations'].append({'target': 'file', 'i': 0, 'j': 0,
                                       'k': k, 'op': 'addline' if len(
                                           f['hex']) % 4 else 'delline'})
+        if f['kind'] == 'text' and f['name'] in ('stdout', 'stderr',
+                                                 'exit.code',
+                                                 'no exception'):
+            # ... and a change of the stream / status of that name
+            case['mutations'].append(
+                {'target': {'stdout': 'stdout', 'stderr': 'stderr'}.get(
+                    f['name'], 'exit'), 'op': 'ins', 'i': 0, 'j': 1, 'k': 0})
         if f['kind'] == 'text' and f['name'].startswith('rep'):
             case['mutations'].append({'target': 'file', 'op': 'ins',
                                       'i': 0, 'j': 1, 'k': k})
